@@ -35,6 +35,7 @@ class Opts:
         self.leading_blank_lines = True
         self.interrupt = True             # omit the blank line where a block may interrupt a paragraph
         self.adjacent_lists = False       # two lists in a row: recorded finding (looseness of the first)
+        self.glue = False                 # write some inline constructs directly next to each other (no space)
         self.__dict__.update(kw)
 
 
@@ -96,7 +97,33 @@ def gen_inlines(rng, o, depth=0, n=None, allow_break=True, allow_link=True):
         res.insert(0, N('text', s=rng.choice(WORDS)))
     if depth > 0 and res[-1].kind != 'text':
         res.append(N('text', s=rng.choice(WORDS)))
+    if getattr(o, 'glue', False):
+        glue_inlines(rng, res)
     return res
+
+
+def glue_inlines(rng, res):
+    """Adjacency without spaces, only where the specification leaves no doubt about the reading: a code span,
+    backslash escape, inline link or autolink written directly after a word, a code span, an escape, a link or
+    an autolink.  Excluded: '!' directly before a link (that is an image), two code spans in a row (the
+    backtick runs would merge), an escaped backtick or backslash before a code span.  A word before a glued
+    code span or escape may get a trailing '!' ("wow!`x`"), which must stay a literal '!'."""
+    for i in range(1, len(res)):
+        prev, cur = res[i - 1], res[i]
+        if cur.kind not in ('code', 'escape', 'link', 'autolink') or prev.kind not in ('text', 'code', 'escape', 'link', 'autolink'):
+            continue
+        if rng.random() >= 0.35:
+            continue
+        if prev.kind == 'code' and cur.kind == 'code':
+            continue
+        if prev.kind == 'escape' and prev.ch in '`\\' and cur.kind == 'code':
+            continue
+        if prev.kind == 'text':
+            if not prev.s[-1].isalnum():
+                continue
+            if cur.kind in ('code', 'escape') and rng.random() < 0.4:
+                prev.s = prev.s + '!'
+        cur.glue = True
 
 
 def has_kind(x, kind):
@@ -152,7 +179,7 @@ def write_inlines(rng, nodes):
             brk = nodes[i]
             out += ('\\\n' if brk.bs else '  \n') if brk.hard else '\n'
         else:
-            if out and not out.endswith('\n'):
+            if out and not out.endswith('\n') and not getattr(nodes[i], 'glue', False):
                 out += ' '
             out += p
     return out
@@ -222,7 +249,7 @@ def html_inlines(nodes, defs):
         if nodes[i].kind == 'break':
             out += p
         else:
-            if out and not out.endswith('\n'):
+            if out and not out.endswith('\n') and not getattr(nodes[i], 'glue', False):
                 out += ' '
             out += p
     return out
